@@ -35,6 +35,7 @@ def main():
     checks = [prop]
     tier = "quick"
     race = prop == "C17"
+    demo_map = {}
     i = 3
     while i < len(a):
         if a[i] == "--demo-dir":
@@ -43,6 +44,8 @@ def main():
             checks = a[i + 1].split(",")
         elif a[i] == "--tier":
             tier = a[i + 1]
+        elif a[i] == "--demo-map":  # file=dir,file=dir for demonstrations that live in several packages
+            demo_map = dict(x.split("=") for x in a[i + 1].split(","))
         i += 2
     patch = os.path.join(src, "patch.diff")
     demos = [f for f in glob.glob(os.path.join(src, "*_test.go"))] + [f for f in glob.glob(os.path.join(src, "*.go")) if not f.endswith("_test.go")]
@@ -62,7 +65,7 @@ def main():
         demo_dir = os.path.dirname(files[0])
     rc, out = run(["go", "build", "./..."], cwd=d)
     meta["builds"] = rc == 0
-    rc, out = run(["go", "test", "-vet=off", "-count=1", "./..."], cwd=d)
+    rc, out = run(["go", "test", "-vet=off", "-count=1", "-p", "4", "./..."], cwd=d)
     fails = [l for l in out.splitlines() if l.startswith("FAIL") or l.startswith("--- FAIL")]
     if fails:
         # timing-based scheduler tests are flaky under load: retry the failing packages once alone
@@ -78,24 +81,25 @@ def main():
         meta["suite_failures"] = fails
     # demonstration
     demo_res = {}
+    where = {f: demo_map.get(os.path.basename(f), demo_dir) for f in demos}
     for f in demos:
-        shutil.copy(f, os.path.join(d, demo_dir, os.path.basename(f)))
-    pkg = "./" + demo_dir + "/"
+        shutil.copy(f, os.path.join(d, where[f], os.path.basename(f)))
+    pkgs = sorted(set("./" + w + "/" for w in where.values()))
     names = []
     for f in demos:
         names += re.findall(r"^func (Test\w+)\(", open(f).read(), re.M)
     runarg = "^(" + "|".join(names) + ")$" if names else "."
     tcmd = ["go", "test", "-vet=off", "-count=1"] + (["-race"] if race else [])
-    rc, out = run(tcmd + ["-run", runarg, pkg], cwd=d)
+    rc, out = run(tcmd + ["-run", runarg] + pkgs, cwd=d)
     demo_res["fails_with_patch"] = rc != 0
     run(["git", "apply", "-R", patch], cwd=d)
-    rc, out2 = run(tcmd + ["-run", runarg, pkg], cwd=d)
+    rc, out2 = run(tcmd + ["-run", runarg] + pkgs, cwd=d)
     demo_res["passes_without_patch"] = rc == 0
     if rc != 0:
         demo_res["output_without_patch"] = out2[-1500:]
     run(["git", "apply", patch], cwd=d)
     for f in demos:
-        os.remove(os.path.join(d, demo_dir, os.path.basename(f)))
+        os.remove(os.path.join(d, where[f], os.path.basename(f)))
     meta["demonstration"] = demo_res
     meta["demo_dir"] = demo_dir
     meta["confirmed"] = bool(meta["builds"] and meta["suite_passes_with_patch"] and demo_res["fails_with_patch"] and demo_res["passes_without_patch"])
